@@ -23,7 +23,7 @@ def _failing_keys(prop, overrides):
     prog = Program(overrides=overrides)
     mod = importlib.import_module(f"mdstatic.rules.{prop}")
     run = core.Run(prop, "quick", prog, selftest=True)
-    mod.check(run)
+    core.run_rules(mod, run)
     run.check_floors()
     return {o["key"]: o for o in run.failures()}
 
